@@ -109,7 +109,19 @@ CLAIMS = {
         "note": "Runtime behaviour of axum/hyper/tokio (limits, concurrency, panic isolation) is assumed as documented, not decided.",
         "technique": "MIR expression patterns + framework-call census + reachability census",
     },
+    "C04": {
+        "text": "Structural decision of text placement plumbing: interprocedural taint of byte lengths (String::len/str::len) never meets a cell coordinate, Cell::new or the cell width; every path of the two per-cell loops adds a fragment for the cell (must-pass-through on the CFG) with cell_text(ch) as last alternative and the iteration's own cell; cells are inserted at the plain enumerate indices guarded only by `ch != NUL && !whitespace`; text is anchored at a grid point of its start cell with unchanged content, cell_text sits at the origin of its own cell, absolute positions add the cell, merging concatenates in column order; wide characters are followed by width-1 NUL fillers which the escaping table drops.",
+        "design_ref": "DESIGN.md section 4 C04",
+        "note": "Which adjacent runs end up merged into one element depends on span grouping at run time and is not decided. Genuine defect repaired by fix: commit 73b59aa.",
+        "technique": "MIR taint analysis (bytes vs columns) + must-pass-through on the CFG + expression patterns",
+    },
+    "C15": {
+        "text": "Structural decision for quoted text: cells are built from escape_line's blanked row; quoted strings live in escaped_text, read only by escaped_text_nodes, whose result is only appended to the finished fragment list; stored cell = (opening quote position, row), stored string = start+1..end; the blank count is not a string display width nor a byte length and equals the content's columns (per-character max(1,width) without NUL fillers, or end-start) plus 2; the scan resumes at end+1 and the surrounding text is copied.",
+        "design_ref": "DESIGN.md section 4 C15",
+        "note": "A literal NUL inside a quoted string is counted as zero columns (accepted residual). Genuine defect repaired by fix: commit a69b444.",
+        "technique": "MIR expression patterns (closures followed), field read census, forward-use analysis",
+    },
 }
 
 NOT_APPLICABLE = {p: _PENDING for p in
-                  ["C01", "C04", "C05", "C06", "C10", "C15"]}
+                  ["C01", "C05", "C06", "C10"]}
